@@ -189,6 +189,20 @@ theorem range_filterMap_all_some {β} (f : Nat → Option β) (n : Nat) (h : ∀
       rw [List.getElem?_append_right (by omega)]
       simp [il, hv]
 
+theorem rect_of_get {β} (l : List β) (n : Nat) (g : Nat → β) (hle : l.length ≤ n)
+    (h : ∀ j < n, l[j]? = some (g j)) : l.length = n ∧ ∀ r ∈ l, ∃ j < n, r = g j := by
+  have hlen : l.length = n := by
+    refine Nat.le_antisymm hle (Nat.le_of_not_lt fun hlt => ?_)
+    have := h l.length hlt
+    simp at this
+  refine ⟨hlen, ?_⟩
+  intro r hr
+  obtain ⟨k, hk, rfl⟩ := List.mem_iff_getElem.mp hr
+  refine ⟨k, by omega, ?_⟩
+  have := h k (by omega)
+  rw [List.getElem?_eq_getElem hk] at this
+  exact Option.some.inj this
+
 theorem features3d_a0_eq {S O R} (analyse : S → O → R) (analyseEpochs : List S → O → List R) (setRS : O → O) (dflt : O)
     (σ : List Nat) (n0 n1 : Nat) (sigs : List (List S)) (kw : Kw O) :
     features3d analyse analyseEpochs setRS dflt σ n0 n1 sigs kw .a0 =
@@ -241,7 +255,7 @@ theorem features3d_a01_get {S O R} (analyse : S → O → R) (analyseEpochs : Li
   have hfl : sigs.flatten.length = n0 * n1 := by rw [flatten_length_rect n1 sigs hrow, hl]
   have hk2 : ∀ os, kw = .many os → os.length = sigs.flatten.length := by rw [hfl]; exact hk
   -- every entry of row `i` is present
-  have hall : ∀ j' < n1, ((features2d analyse setRS dflt σ sigs.flatten
+  have hall : ∀ (j' : Nat) (hj' : j' < n1), ((features2d analyse setRS dflt σ sigs.flatten
       (if (kw.toList dflt).length = 1 then Kw.one ((kw.toList dflt).headD dflt)
         else Kw.many (kw.toList dflt)))[i * n1 + j']?) =
       some (analyse (sigs.flatten[i * n1 + j']'(by
@@ -298,15 +312,20 @@ theorem features3d_a1_get {S O R} (analyse : S → O → R) (analyseEpochs : Lis
     intro j' hj'
     exact zipmap_get _ _ _ j' _ _ (transposeL_getRow n1 sigs j' hj')
       (ksFix_get dflt kw _ j' (by omega) (by rw [hTl]; exact hk))
-  have hrect' : Rect n1 n0 (((transposeL n1 sigs).zip (if (kw.toList dflt).length = 1 then
+  have hle : (((transposeL n1 sigs).zip (if (kw.toList dflt).length = 1 then
           List.replicate (transposeL n1 sigs).length ((kw.toList dflt).headD dflt)
-        else kw.toList dflt)).map (fun p : List S × O => analyseEpochs p.1 p.2)) := by
-    constructor
-    · rw [List.length_map, List.length_zip, hTl]
-      have := ksFix_get dflt kw (transposeL n1 sigs).length
-      sorry
-    · sorry
-  sorry
+        else kw.toList dflt)).map (fun p : List S × O => analyseEpochs p.1 p.2)).length ≤ n1 := by
+    rw [List.length_map, List.length_zip, hTl]; exact Nat.min_le_left _ _
+  obtain ⟨_, hmem⟩ := rect_of_get _ n1 _ hle hres
+  have hrows : ∀ row ∈ (((transposeL n1 sigs).zip (if (kw.toList dflt).length = 1 then
+          List.replicate (transposeL n1 sigs).length ((kw.toList dflt).headD dflt)
+        else kw.toList dflt)).map (fun p : List S × O => analyseEpochs p.1 p.2)), row.length = n0 := by
+    intro row hr
+    obtain ⟨j', hj', rfl⟩ := hmem row hr
+    rw [hlen, filterMap_length_of_all_some n1 j' hj' sigs hrow, hl]
+  refine ⟨_, transposeL_getRow n0 _ i hi, ?_, hcol⟩
+  rw [filterMap_get_of_all_some n0 i hi _ hrows j, hres j hj]
+  rfl
 
 /-- non-vacuity of the index slot: with `i + j` instead of `i * n1 + j` a 2 × 2 grid is already wrong. -/
 theorem unflatten_wrong_counterexample : (fun (n1 i j : Nat) => i + j) 2 1 0 ≠ (fun (n1 i j : Nat) => i * n1 + j) 2 1 0 := by
